@@ -14,7 +14,7 @@ from lib import gen, wire
 
 PROPERTY = "C04"
 LEVEL = "exploration"
-RULE = ("(A) random E37 header fields (session, stream, function, W, SType, system bytes with boundaries, body lengths) "
+RULE = ("(A) after SECS-I blocks were coded in the same process: random E37 header fields (session, stream, function, W, SType, system bytes with boundaries, body lengths) "
         "encoded/decoded by the library vs the reference frame codec; (B) streams of 1-12 frames (data with/without W, "
         "Linktest.req, bodies 0..1 MiB+1) delivered under partitions: whole, every byte, every single cut, all 2-cut "
         "partitions of a 3-frame stream, header-straddling and random cuts; distinct by (stream bytes, partition); "
